@@ -299,6 +299,45 @@ def _ds_len(interp, obj):
     return wrap(obj.fields["content"].n)
 
 
+@prop("H5Dataset", "chunks")
+def _ds_chunks(interp, obj):
+    return obj.fields.get("chunks")
+
+
+@prop("H5Dataset", "dtype")
+def _ds_dtype(interp, obj):
+    return obj.fields.get("dtype")
+
+
+@prop("H5Dataset", "id")
+def _ds_id(interp, obj):
+    return obj
+
+
+@prop("H5Group", "id")
+def _grp_id(interp, obj):
+    return obj
+
+
+@method("H5Dataset", "iter_chunks")
+def _ds_iter_chunks(interp, obj):
+    """H-ITERCHUNKS: the chunks of a 1-D chunked dataset in storage order: chunk i is
+    (slice(c*i, min(c*(i+1), N)),) for chunk length c >= 1; there are ceil(N / c) of them"""
+    axiom("H-ITERCHUNKS")
+    ch = obj.fields.get("chunks")
+    if not (isinstance(ch, tuple) and len(ch) >= 1):
+        raise _eng().PyRaise(TypeError, ("Dataset is not chunked",))
+    c = to_z3(ch[0])
+    n = obj.fields["content"].n
+    m = z3.Int(interp.ctx._name("nchunks"))
+    interp.ctx.assume(z3.And(c >= 1, m >= 0, (m - 1) * c < n, n <= m * c))
+
+    def getter(i):
+        hi = z3.If(c * (i + 1) < n, c * (i + 1), n)
+        return (slice(wrap(c * i), wrap(hi)),)
+    return models.SIter(m, getter, {"chunk": c, "n": n})
+
+
 @method("H5Dataset", "resize")
 def _ds_resize(interp, obj, size, axis=None):
     eng = _eng()
@@ -344,6 +383,8 @@ def _ds_getitem(interp, obj, key):
         return r
     if isinstance(key, tuple) and len(key) == 0:
         return models.arr_getitem(interp, c, slice(None))
+    if isinstance(key, tuple) and len(key) == 1 and isinstance(key[0], slice):
+        return _ds_getitem(interp, obj, key[0])
     raise _eng().Unsupported(f"dataset index {type(key).__name__}")
 
 
@@ -355,6 +396,8 @@ def _ds_setitem(interp, obj, key, val):
     c = obj.fields["content"]
     if isinstance(val, SObj) and val.clsname == "H5Dataset":
         val = val.fields["content"]
+    if isinstance(key, tuple) and len(key) == 1 and isinstance(key[0], slice):
+        key = key[0]
     if isinstance(key, slice) and "strwidth" in obj.fields and isinstance(val, SArr):
         axiom("H-FIXEDSTR")
         w = to_z3(obj.fields["strwidth"])
